@@ -18,6 +18,13 @@ def run(ctx):
     incr.run_incremental(ctx, "C02", n // 3, salt=1, size_range=(3, 7),
                          feat=dict(restat=0.55, order_only=0.7, deps=0.6, generator=0.1, phony=0.35),
                          change_kinds=["touch", "touch", "edit", "edit_hdr", "rm_out", "cmd", "rm_depfile"])
+    # dyndep-heavy family: every graph has a dyndep file that is regenerated whenever its sources are touched, restat flags that
+    # come from it, aliases behind the served statements, several changes per round
+    incr.run_incremental(ctx, "C02", n // 6, salt=3, size_range=(2, 5),
+                         feat=dict(dyndep=1.0, restat=0.3, phony=0.2, deps=0.3, generator=0.0, chain=0.8),
+                         change_kinds=["touch", "touch", "touch", "edit", "edit_hdr"], nchg_choices=(1, 2, 2, 3),
+                         allow_faults=False, allow_interrupt=False, allow_edit_running=False)
+    incr.run_dd_restat(ctx, "C02", n // 10)
     # self-regenerating manifests: build.ninja is a generator output selected by a config file
     incr.run_regen(ctx, "C02", n // 10, size_range=(2, 6))
     ctx.rule = ("seeded random graphs of 3..%d statements x histories of 2..5 change+build rounds (plus immediate re-runs), plus histories in which ninja regenerates and reloads its own manifest; "
